@@ -24,6 +24,7 @@ import (
 	"sort"
 	"strings"
 	"sync"
+	"sync/atomic"
 	"time"
 
 	"github.com/cloudwego/eino/components/model"
@@ -107,6 +108,8 @@ type exec struct {
 type toolOpts struct{ marker string }
 
 const toolMarker = "c18-marker"
+
+var futureHangs atomic.Int32
 
 type modelCall struct {
 	rendered []Msg
@@ -631,9 +634,17 @@ func runAgent(tg *target, c *Case, mode string) (o RunObs) {
 		return
 	}
 	if fut != nil {
+		// everything the future hands out was sent before the run returned; once a future was
+		// seen to hang (an oracle failure) later ones are given little time, to stay within the
+		// harness's time budget
+		wait := 3 * time.Second
+		if futureHangs.Load() > 0 {
+			wait = 50 * time.Millisecond
+		}
 		select {
 		case <-futDone:
-		case <-time.After(5 * time.Second):
+		case <-time.After(wait):
+			futureHangs.Add(1)
 			o.HasEmits, o.FutEnd = true, "hang"
 			return
 		}
